@@ -98,7 +98,7 @@ def mutation_shard(ctx, shard, check, profiles=('small', 'small', 'lists', 'smal
     _, ndocs, idx = shard
     res = H.Result()
     seen = set()
-    alpha = alpha or (T.A_CORE + ['\r', '.'])
+    alpha = alpha or (T.A_CORE + ['\r', '.', '[a]', '{a}'])
 
     def prop(nodes):
         src = G.render(nodes)
